@@ -5,7 +5,7 @@ cd /verif || exit 2
 for d in "$@"; do
  for b in $d/R*.diff; do
   [ -f "$b" ] || continue
-  out=$(tools/try_patch.sh $b C01 C02 C03 C04 C05 C06 C07 C08 C09 C10 C11 C12 C13 C14 C15 C16 C17 C18 C19 C20 2>&1 | grep -v "^KNOWN-FINDING")
+  out=$(tools/try_patch.sh $(realpath $b) C01 C02 C03 C04 C05 C06 C07 C08 C09 C10 C11 C12 C13 C14 C15 C16 C17 C18 C19 C20 2>&1 | grep -v "^KNOWN-FINDING")
   if echo "$out" | grep -q "patch does not apply"; then echo "$b NOAPPLY"; continue; fi
   fired=$(echo "$out" | grep -c "^VIOLATION")
   if [ "$fired" = 0 ]; then echo "$b SILENT"; else echo "$b ALARM props=$(echo "$out" | grep '^VIOLATION' | sed 's/.*property=\(C[0-9]*\).*/\1/' | sort -u | tr '\n' ',') $(echo "$out" | grep -A2 '^VIOLATION' | grep -v '^VIOLATION\|^--' | head -2 | tr '\n' ' ' | cut -c1-420)"; fi
